@@ -1011,7 +1011,7 @@ fn main() {
          from {lens:?} (+ streams with a zero-length frame); at every poll_read: Pending | every n in 1..=min(buf,remaining) | EOF | I/O \
          error. Write grid: every sequence of 1..3 outbound messages (same lengths) handed over at every possible driver point; at every \
          poll_write[_vectored]: Pending | every n in 1..=offered | I/O error; poll_flush: Ok | Pending | I/O error. Joint grid: inbound x \
-         outbound sequences of 1..2 messages with lengths {{1,2,3}} incl. dropping the handle. Conformance grids: TcpClientStream and \
+         outbound sequences of 1..2 messages with lengths {{1,2,3}} incl. dropping the handle (thorough: + three pairs with 35..70-byte messages). Conformance grids: TcpClientStream and \
          TimeoutStream<TcpStream> wrappers on the joint grid. Matching-free cross-run: every answer sequence of every stream of <= 12 \
          framed bytes without state matching must reach exactly the BFS key set. Big messages (65,535 / 32,768 bytes) with fixed chunk \
          sizes. From every state a fair run to completion is judged. Non-trivial = transitions with a short read/write or a Pending \
@@ -1029,8 +1029,16 @@ fn main() {
         if only.as_deref().map(|o| o != name).unwrap_or(false) {
             return vcore::BfsStats { fixpoint: true, ..Default::default() }; // debugging aid only
         }
-        let st = run_bfs(&ctx, &insts, *base);
-        *base += insts.len() as u32;
+        // instances are explored in slices of 24 to bound the memory of a BFS level
+        let mut st = vcore::BfsStats { fixpoint: true, ..Default::default() };
+        for chunk in insts.chunks(24) {
+            let part = run_bfs(&ctx, chunk, *base);
+            *base += chunk.len() as u32;
+            st.states += part.states;
+            st.transitions += part.transitions;
+            st.depth_completed = st.depth_completed.max(part.depth_completed);
+            st.fixpoint &= part.fixpoint;
+        }
         eprintln!("[C17] grid {name}: instances={} states={} transitions={} depth={} fixpoint={} t={:.1}s", insts.len(), st.states, st.transitions, st.depth_completed, st.fixpoint, ctx.elapsed_s());
         grid_stats.insert(name.to_string(), json!({"instances": insts.len(), "states": st.states, "transitions": st.transitions, "depth": st.depth_completed, "fixpoint": st.fixpoint}));
         if !st.fixpoint {
@@ -1076,7 +1084,7 @@ fn main() {
         }
     }
     if !quick {
-        for (i, o) in [(vec![255usize], vec![300usize]), (vec![300, 2], vec![2, 256]), (vec![1, 256], vec![255, 1])] {
+        for (i, o) in [(vec![64usize], vec![70usize]), (vec![40, 2], vec![2, 33]), (vec![1, 35], vec![34, 1])] {
             insts.push(Inst::new(format!("joint in{i:?} out{o:?}"), Wrapper::Plain, inbound_of(&i), &o, 1, true));
         }
     }
@@ -1100,7 +1108,7 @@ fn main() {
     {
         let mut insts = vec![];
         let framed = |s: &Vec<usize>| -> usize { s.iter().map(|l| l + 2).sum() };
-        let (r1, r0, w1, w0) = if quick { (9, 12, 6, 9) } else { (10, 14, 7, 10) };
+        let (r1, r0, w1, w0) = if quick { (9, 12, 6, 9) } else { (10, 13, 7, 9) };
         for s in sequences(&[1, 2, 3, 5, 8], 3) {
             let total = framed(&s);
             if total <= r1 {
